@@ -532,6 +532,10 @@ impl Prop for C11 {
         }
     }
 
+    fn view(c: &Case) -> serde_json::Value {
+        serde_json::json!({"session": crate::lockstep::prog_view(&c.prog), "suspend": c.suspend, "edit": edit_text(&c.edit), "probe": c.probe})
+    }
+
     fn shrink(c: &Case) -> Vec<Case> {
         let mut out = vec![];
         if let Suspend::EveryBoundary = c.suspend {
